@@ -23,4 +23,16 @@ theorem reloadCopies_tie : Risor.Generated.C18.reloadCopiesGlobals = true := by 
 /-- Compile has no rollback: it assigns nothing but the failure flag, the source and the filename -/
 theorem compileNoRollback_tie : Risor.Generated.C18.compileAssigns = compileAssigns := by decide
 
+/-- compile-only state (layer 3, `Mark.restored`): `pipeActive`, `loops`, `symbols` and
+    `pendingSwitchValues` are reset by a deferred function in every compile function that sets them,
+    `Compiler.current` is not -/
+theorem compileOnlyRestores_tie : Risor.Generated.C18.compileOnlyRestores = compileOnlyRestores := by decide
+
+/-- `start` clears the halt flag for every context (layer 5, `startClearsHalt`) -/
+theorem startClearsHalt_tie : Risor.Generated.C18.startClearsHaltUnconditionally = haltClearedForEveryContext := by decide
+
+/-- every Run loads — binds to its generation of the globals — every function constant of the main
+    code that is not loaded yet (layer 4, `BCtl.next`) -/
+theorem loadsFunctionConstants_tie : Risor.Generated.C18.loadsFunctionConstantsEveryRun = true := by decide
+
 end Risor.C18
